@@ -1662,3 +1662,127 @@ def rule_feeder_writes_what_it_read(ctx):
                     r.ok(anchor, "NOT decided: what is written is not traced to the read buffer", w.loc())
     if n == 0:
         r.ok("feeder", "NOT decided: no code copying a reader to a writer in the SAT layer", None)
+
+
+# ------------------------------------------------------------------------------------------
+# C15: the embedded back end hands the clauses and the assumptions over as they are (found by a probe round)
+
+_DROPPING = r"Iterator::(skip|take|filter|filter_map|step_by|skip_while|take_while|map_while)$"
+
+
+def rule_embedded_backend_translation(ctx):
+    prog = ctx.prog
+    from ..prov import prov, show, subterms
+
+    r = ctx.rule(
+        "embedded-backend-translation",
+        "the embedded back end (a SatSolver impl that calls a foreign solver object directly): add_clause hands every literal of the clause to "
+        "the foreign `add_clause`, solve_under_assumptions hands every assumption to the foreign solve call - each through a conversion that "
+        "does no arithmetic on it -, the model is read for the variables 1..=max_variable(), and n_vars() is the larger of the foreign "
+        "solver's count and the reservation",
+    )
+    n = 0
+    for imp in prog.impls_of_trait(SATSOLVER):
+        sadt = imp.get("self_adt") or ""
+        methods = {m["name"]: prog.lib(m["path"]) for m in imp["methods"]}
+        foreign = [s for b in methods.values() if b is not None for s in b.calls() if (callee_of(s) or {}).get("crate") not in (None, "crustabri", "core", "alloc", "std") and re.search(r"::add_clause$", callee_decl(callee_of(s)) or "")]
+        if not foreign:
+            continue  # a back end that stores / forwards text
+        fcrate = callee_of(foreign[0]).get("crate")
+
+        def judge_list(b, site, arg, what, pk):
+            nonlocal n
+            n += 1
+            anchor = "%s|%s" % (b.id, what)
+            trees = list(prov(prog, b, arg))
+            verdict = None
+            for e in trees:
+                calls = [t for t in subterms(e) if isinstance(t, tuple) and t[0] == "call"]
+                drop = [t[1].rsplit("::", 1)[-1] for t in calls if re.search(_DROPPING, t[1])]
+                if drop:
+                    r.violation(anchor, "literals-dropped:%s" % drop[0], "the %s handed to the foreign solver go through `%s`: not every literal of the call reaches the solver" % (what, drop[0]), site.loc())
+                    return
+                from_param = any(t[0] == "param" and t[2] == pk and not t[3] for t in subterms(e))
+                if not any(isinstance(t, tuple) and t[0] == "param" and t[2] == pk for t in subterms(e)) and not any(isinstance(t, tuple) and t[0] in ("?", "var") for t in subterms(e)):
+                    r.violation(anchor, "not-handed-over", "what is handed to the foreign solver (%s) does not come from the %s of the call at all" % (show(e)[:60], what), site.loc())
+                    return
+                maps = [t for t in calls if re.search(r"Iterator::map$", t[1])]
+                unknown = [t for t in calls if not re.search(r"Iterator::(map|copied|cloned|rev)$|IntoIterator::into_iter$|slice::.*iter$|Vec.*::iter$|Deref::deref$|to_vec$|Clone::clone$", t[1])]
+                if not from_param or unknown or len(maps) > 1:
+                    verdict = "NOT decided: %s" % show(e)[:80]
+            # the conversion closure(s)
+            for cs in b.calls():
+                c = callee_of(cs)
+                if not callee_matches(c, r"Iterator::map$"):
+                    continue
+                seen, dcalls, _ = data_deps(b, arg)
+                if not any((x.bb, x.si) == (cs.bb, cs.si) for x in dcalls):
+                    continue
+                for cp in c.get("fn_args") or []:
+                    cb = prog.lib(cp)
+                    if cb is None:
+                        verdict = verdict or "NOT decided: conversion by a function that is not followed"
+                        continue
+                    for e in prov(prog, cb, {"l": 0, "p": []}):
+                        ops = [t for t in subterms(e) if isinstance(t, tuple) and t[0] == "op"]
+                        if ops:
+                            r.violation(anchor, "literal-altered:%s" % ops[0][1], "the conversion of a literal for the foreign solver computes on it (`%s`): the solver is given another literal than the one of the call" % ops[0][1], cb.loc())
+                            return
+                        okc = all(re.search(r"convert::(From::from|Into::into)$|Clone::clone$|Deref::deref$", t[1]) for t in subterms(e) if isinstance(t, tuple) and t[0] == "call")
+                        if not okc:
+                            verdict = verdict or "NOT decided: conversion %s" % show(e)[:60]
+            r.ok(anchor, verdict or "every literal of the %s reaches the foreign solver, converted without arithmetic" % what, site.loc())
+
+        for nm, b in sorted(methods.items()):
+            if b is None:
+                continue
+            for s in b.calls():
+                c = callee_of(s)
+                if (c or {}).get("crate") != fcrate:
+                    continue
+                d = callee_decl(c)
+                if re.search(r"::add_clause$", d) and nm == "add_clause" and len(s.node["args"]) >= 2:
+                    judge_list(b, s, s.node["args"][1], "clause literals", 2)
+                elif re.search(r"::solve_with$|::solve_under_assumptions$|::solve_assuming$", d) and len(s.node["args"]) >= 2:
+                    judge_list(b, s, s.node["args"][1], "assumptions", 2)
+        # the model: variables 1..=max_variable()
+        sb = methods.get("solve_under_assumptions")
+        if sb is not None:
+            n += 1
+            found = None
+            for y in [sb]:
+                for s in y.calls():
+                    if callee_matches(callee_of(s), r"ops::range::RangeInclusive::(<.*>::)?new$") and len(s.node["args"]) == 2:
+                        k = op_const(s.node["args"][0])
+                        ends = list(prov(prog, y, s.node["args"][1]))
+                        if k is not None and "int" in k and ends and all(e[0] == "call" and re.search(r"::max_variable$", e[1]) for e in ends):
+                            found = ("incl", k["int"], s)
+                for s in y.sites():
+                    nd = s.node
+                    if s.si is not None and nd["k"] == "assign" and nd["rv"]["k"] == "aggregate" and (nd["rv"]["agg"].get("path") or "").endswith("ops::range::Range") and len(nd["rv"]["ops"]) == 2:
+                        k = op_const(nd["rv"]["ops"][0])
+                        ends = list(prov(prog, y, nd["rv"]["ops"][1]))
+                        if k is not None and "int" in k and ends and all(e[0] == "call" and re.search(r"::max_variable$", e[1]) for e in ends):
+                            found = found or ("excl", k["int"], s)
+            anchor = "%s|model-range" % sb.id
+            if found is None:
+                r.ok(anchor, "NOT decided: no range from a constant to max_variable() is built for the model", sb.loc())
+            elif found[0] == "excl":
+                r.violation(anchor, "model-range:%d..max" % found[1], "the model is read for the variables %d..max_variable(), exclusive: the value of the last variable is never read (it is reported as unassigned or missing)" % found[1], found[2].loc())
+            else:
+                r.check(found[1] == 1, anchor, "model-range:%d..=max" % found[1], "the model is read for 1..=max_variable()", "the model is read from variable %d on: the values are shifted by %d against the variables" % (found[1], 1 - found[1]), found[2].loc())
+        # n_vars
+        nb = methods.get("n_vars")
+        if nb is not None:
+            n += 1
+            for e in prov(prog, nb, {"l": 0, "p": []}):
+                t = e
+                while isinstance(t, tuple) and t[0] == "cast":
+                    t = t[1]
+                if isinstance(t, tuple) and t[0] == "call" and re.search(r"::max$", t[1]) and len(t[2]) == 2 and any(isinstance(a, tuple) and a[0] == "call" and re.search(r"::max_variable$", a[1]) for a in t[2]):
+                    r.ok(nb.id + "|n-vars", "n_vars = max(foreign count, reservation)", nb.loc())
+                elif isinstance(t, tuple) and t[0] == "call" and re.search(r"::min$", t[1]):
+                    r.violation(nb.id + "|n-vars", "n-vars-min", "n_vars() is the *smaller* of the foreign solver's variable count and the reservation: variables above it are in use, and a selector taken as n_vars()+1 collides with them", nb.loc())
+                else:
+                    r.ok(nb.id + "|n-vars", "NOT decided: %s" % show(e)[:80], nb.loc())
+    r.floor(n, 3, "translation points of the embedded back end")
